@@ -418,3 +418,75 @@ pub fn metadata<P: AsRef<Path>>(path: P) -> io::Result<Metadata> {
         real_fs_err::metadata(path).map(|m| Metadata { len: m.len(), dir: m.is_dir() })
     }
 }
+
+/// One entry of a simulated directory.
+#[derive(Clone, Debug)]
+pub struct DirEntry {
+    path: PathBuf,
+    dir: bool,
+    len: u64,
+}
+
+impl DirEntry {
+    pub fn path(&self) -> PathBuf {
+        self.path.clone()
+    }
+    pub fn file_name(&self) -> std::ffi::OsString {
+        self.path.file_name().map(|n| n.to_os_string()).unwrap_or_default()
+    }
+    pub fn metadata(&self) -> io::Result<Metadata> {
+        Ok(Metadata { len: self.len, dir: self.dir })
+    }
+}
+
+pub struct ReadDir {
+    entries: std::vec::IntoIter<DirEntry>,
+}
+
+impl Iterator for ReadDir {
+    type Item = io::Result<DirEntry>;
+    fn next(&mut self) -> Option<Self::Item> {
+        self.entries.next().map(Ok)
+    }
+}
+
+/// The entries of a directory, in the order this copy of the project happens to list them: every simulated process
+/// works on a copy of its own (another checkout, another file system), and the order in which a directory lists its
+/// entries belongs to the copy, not to the project. It is derived from the process's entropy seed.
+pub fn read_dir<P: AsRef<Path>>(path: P) -> io::Result<ReadDir> {
+    let path = path.as_ref();
+    if !disk::active() {
+        // (outside a simulated process nothing of the code under test lists directories)
+        return Err(wrap(io::Error::from_raw_os_error(2), EK::OpenFile, path));
+    }
+    let p = disk::normalize(path);
+    let listed = disk::with(|d| {
+        if !d.dirs.contains(&p) && !d.files.keys().any(|f| f.parent() == Some(p.as_path())) {
+            return None;
+        }
+        let mut v: Vec<DirEntry> = vec![];
+        for (f, b) in &d.files {
+            if f.parent() == Some(p.as_path()) {
+                v.push(DirEntry { path: f.clone(), dir: false, len: b.len() as u64 });
+            }
+        }
+        for dir in &d.dirs {
+            if dir.parent() == Some(p.as_path()) && *dir != p {
+                v.push(DirEntry { path: dir.clone(), dir: true, len: 4096 });
+            }
+        }
+        Some(v)
+    })
+    .unwrap();
+    match listed {
+        None => Err(wrap(io::Error::from_raw_os_error(2), EK::OpenFile, path)),
+        Some(mut v) => {
+            let salt = mos_simrt::entropy::listing_salt();
+            v.sort_by_key(|e| {
+                mos_simrt::rng::fnv64_extend(salt, e.path.to_string_lossy().as_bytes())
+            });
+            mos_simrt::entropy::note_listing();
+            Ok(ReadDir { entries: v.into_iter() })
+        }
+    }
+}
